@@ -472,6 +472,7 @@ CHECKS = {
     'C07': {
         'level': 'model_checking',
         'jobs': [
+            C('link', 'TestLinkReal', 'TraceLink', env={'VERIF_LINK_PATS': 'survey,xsurvey'}),   # every transport; contexts through the byte-slice API, buffers reused, slices held
             RS('xsurveyor'),
             T('MC_Surveyor', 'Surveyor_quick.cfg'),
             T('MC_Surveyor', 'Surveyor_full.cfg', tiers=('thorough',), timeout=2400),
